@@ -67,6 +67,10 @@ def handlers : List (String × Handler) := [
     | [a1, a2, angle, pts] =>
       encList ';' ((rotateTetrahedral (GeomD.decV a1) (GeomD.decV a2) (PsizeD.decF angle) (GeomD.decVs pts)).map GeomD.encV)
     | _ => str "bad-op"),
+  ("rigid.third", fun a => match a with
+    | [nxt, bond, h0, h1] =>
+      GeomD.encV (thirdHydrogen (GeomD.decV nxt) (GeomD.decV bond) (GeomD.decV h0) (GeomD.decV h1))
+    | _ => str "bad-op"),
   ("rigid.nobonds", fun a => match a with
     | [atom, close] => GeomD.encV (makeNoBonds (GeomD.decV atom) (GeomD.decV close))
     | _ => str "bad-op")
